@@ -135,6 +135,23 @@ def check(rng, deep):
     Jn = nm.partial_jacobians(ssn, Z + ['p'], T=T)
     run('solve_jacobian[nested]', [nm, inner], lambda: nm.solve_jacobian(ssn, ['p'], ['res_p'], Z, T=T, Js=Jn), dict(ss=ssn, Js=Jn))
     run('solve_impulse_nonlinear[nested]', [nm, inner], lambda: nm.solve_impulse_nonlinear(ssn, ['p'], ['res_p'], sh, Js=Jn, options=quiet), dict(ss=ssn, inputs=sh, Js=Jn, options=quiet), echo=('inputs',))
+    # a FRESH nested model, no saved Jacobians: the first general-equilibrium call must not leave anything behind in the solved block, and the same call at ANOTHER steady state
+    # afterwards must equal what a fresh model returns there (history independence across steady states, same horizon)
+    nm2, inner2 = mm.nested()
+    run('solve_jacobian[fresh nested, no saved Js]', [nm2, inner2], lambda: nm2.solve_jacobian(ssn, ['p'], ['res_p'], Z, T=T), dict(ss=ssn))
+    calib_b = dict(mm.CALIB, beta=0.93, alpha=0.36)
+    ssn_b = nm2.solve_steady_state(dict(calib_b), {'p': (-4.0, 4.0)}, {'res_p': 0.0}, solver='brentq')
+    n += 1
+    Gb = nm2.solve_jacobian(ssn_b, ['p'], ['res_p'], Z, T=T)
+    ib = nm2.solve_impulse_linear(ssn_b, ['p'], ['res_p'], sh)
+    nm3, _ = mm.nested()
+    Gf = nm3.solve_jacobian(ssn_b, ['p'], ['res_p'], Z, T=T)
+    if_ = nm3.solve_impulse_linear(ssn_b, ['p'], ['res_p'], sh)
+    if result_value(Gb) != result_value(Gf) or result_value(ib) != result_value(if_):
+        dev = max(float(np.abs(np.asarray(Gb[o][z]) - np.asarray(Gf[o][z])).max()) for o in Gf.outputs for z in Z if z in Gf.nesteddict.get(o, {}) and not hasattr(Gf[o][z], 'elements'))
+        C.push(out, dict(what='general-equilibrium Jacobian / linear impulse of a model with a solved block depends on earlier calls at another steady state (same object, same horizon)',
+                         input=dict(kind='audit', call='solve_jacobian[nested] at a second steady state', first=dict(beta=mm.CALIB['beta'], alpha=mm.CALIB['alpha']), second=dict(beta=0.93, alpha=0.36)),
+                         observed=dev, signature=dict(op='history-dependent', call='solve_jacobian', what='second steady state')))
     rinner = inner.remap({'k': 'k_f', 'res_k': 'res_k_f', 'z': 'z_f'})
     ssr = rinner.steady_state({**{k: v for k, v in mm.CALIB.items() if k != 'z'}, 'z_f': 1.0})
     Jr = rinner.partial_jacobians(ssr, ['z_f', 'e', 'p'], T=T)
